@@ -180,6 +180,17 @@ def optable(tier, rng):
     boom = bin_("eq", bin_("idx", lit(L(TZ, [Z(1)])), zl(9)), zl(1))
     add("bin:and:short", bin_("and", lit(W(False)), boom), TW)
     add("bin:or:short", bin_("or", lit(W(True)), boom), TW)
+    # ... also when the operands are plain variables and arithmetic (nothing that looks like a side effect): the guard idiom
+    su = [var("sn", TZ, zl(12), False), var("sk", TZ, zl(0), False), var("sm", TZ, zl(MINI), False), var("se", TZ, zl(-1), False), var("sl", TL(TZ), lit(L(TZ, [Z(1)])), False)]
+    booms = [("mod0", bin_("eq", bin_("mod", ident("sn"), ident("sk")), zl(0))), ("mod0lit", bin_("eq", bin_("mod", zl(12), zl(0)), zl(0))),
+             ("minmod", bin_("eq", bin_("mod", ident("sm"), ident("se")), zl(0))), ("idxvar", bin_("eq", bin_("idx", ident("sl"), ident("sn")), zl(1))),
+             ("modsum", bin_("gt", bin_("plus", bin_("mod", ident("sn"), ident("sk")), zl(1)), zl(0)))]
+    for bn, b in booms:
+        add("bin:and:guard:%s" % bn, bin_("and", bin_("ne", ident("sk"), zl(0)), b), TW, su)
+        add("bin:or:guard:%s" % bn, bin_("or", bin_("eq", ident("sk"), zl(0)), b), TW, su)
+        add("bin:and:guard-lit:%s" % bn, bin_("and", lit(W(False)), b), TW, su)
+        add("bin:or:guard-nested:%s" % bn, bin_("or", bin_("and", lit(W(False)), b), bin_("or", lit(W(True)), b)), TW, su)
+        add("stmt:if:guard:%s" % bn, ident("sn"), TZ, su + [if_(bin_("and", bin_("ne", ident("sk"), zl(0)), b), [setv(lvid("sn"), zl(1))])])
     # texts and characters
     for i, s in enumerate(TBV):
         add("un:len:t%d" % i, un("len", lit(T(s))), TZ)
